@@ -15,6 +15,7 @@ static int verdictMain(const std::vector<std::string>&, std::istream& in, std::o
     std::string line;
     while (std::getline(in, line)) {
         auto w = splitWords(line);
+        if (w.size() == 1) w.push_back("");                     // the empty text
         if (w.size() != 2) { out << "bad-case\n"; continue; }
         // as Driver::runCFrontEnd builds them: ParseOptions{LanguageDialect(std)} + disambiguation + comment mode
         auto full = decodeOptions(w[0]);
